@@ -54,7 +54,7 @@ auto gemm_n(Context&& ctxt, typename It2DA::element alpha, It2DA a_first, Size a
 	if(a_count == 0) { return c_first; }
 
 	if      ((*a_first).stride()==1 && (*b_first).stride()==1 && (*c_first).stride()==1) {
-		if     ( a_count==1 && (*b_first).size()==1 ) {CTXT->gemm('N', 'N', (*b_first).size(), a_count, (*a_first).size(), &alpha, b_first.base(), (*b_first).size(), a_first.base(), (*a_first).size()  , &beta, c_first.base(), (*c_first).size()  );}
+		if     ( a_count==1 && (*b_first).size()==1 ) {CTXT->gemm('N', 'N', (*b_first).size(), a_count, (*a_first).size(), &alpha, b_first.base(), b_first. stride(), a_first.base(), (*a_first).size()  , &beta, c_first.base(), (*c_first).size()  );}
 		else if( a_count==1                        ) {CTXT->gemm('N', 'N', (*b_first).size(), a_count, (*a_first).size(), &alpha, b_first.base(), b_first. stride(), a_first.base(), (*a_first).size()  , &beta, c_first.base(), (*c_first).size()  );}
 		else                                         {CTXT->gemm('N', 'N', (*b_first).size(), a_count, (*a_first).size(), &alpha, b_first.base(), b_first. stride(), a_first.base(), a_first. stride(), &beta, c_first.base(), c_first. stride());}
 	}else if((*a_first).stride()==1 && (*b_first).stride()==1 && c_first. stride()==1) {
